@@ -175,33 +175,48 @@ def check(prop, tier):
     return rc
 
 
-def closed_model_check(prop, tier):
-    """Exhaustive TLC run of the closed-loop model with this property's invariants."""
-    cfgfile = "MC_%s.cfg" % prop
-    if not os.path.exists(os.path.join(vlib.SPEC, cfgfile)):
-        cfgfile = "MC_closed.cfg"
-    if not os.path.exists(os.path.join(vlib.SPEC, cfgfile)):
-        return {"note": "closed-loop model configuration not present"}
-    key = os.path.join(vlib.BUILD, "cache", "%s-mc-%s-%s.json" % (vlib.tree_hash(), prop, tier))
-    if os.path.exists(key):
-        return json.load(open(key))
-    wd = vlib.scratch("mc-%s-%d" % (prop, os.getpid()))
-    rc, out = vlib.tlc("MC_Rollouts.tla", cfgfile, wd, workers=8, timeout=3000, heap="12g")
+def _mc_one(cfgname):
+    """Exhaustive TLC run of the closed-loop model from the configuration's own initial state."""
     import re
     import shutil
+    import subprocess
+    exe = vlib.build_harness()
+    _, cfgpath = vlib.load_cfg(cfgname)
+    key = os.path.join(vlib.BUILD, "cache", "%s-mc-%s.json" % (vlib.tree_hash(), cfgname))
+    if os.path.exists(key):
+        return json.load(open(key))
+    wd = vlib.scratch("mc-%s-%d" % (cfgname, os.getpid()))
+    r = subprocess.run([exe, "-mode", "init", "-cfg", cfgpath], cwd=vlib.REPO, stdout=subprocess.PIPE, stderr=subprocess.DEVNULL, text=True, timeout=300)
+    if r.returncode != 0:
+        raise Inconclusive("explore -mode init failed for %s" % cfgname)
+    open(os.path.join(wd, "init.json"), "w").write(r.stdout.strip().splitlines()[-1] + "\n")
+    t0 = time.time()
+    rc, out = vlib.tlc("MC_Rollouts.tla", "MC_closed.cfg", wd, env={"VERIF_INIT": os.path.join(wd, "init.json"), "VERIF_DUMP": "0"},
+                       workers=4, timeout=3000, heap="8g")
     m = re.search(r"(\d+) states generated, (\d+) distinct states found", out)
-    res = {"cfg": cfgfile, "rc": rc}
+    res = {"cfg": cfgname, "rc": rc, "wall_s": round(time.time() - t0, 1)}
     if m:
-        res["transitions"] = int(m.group(1))
-        res["states"] = int(m.group(2))
-    if "Error:" in out or rc != 0:
-        res["error"] = out[-3000:]
-        shutil.rmtree(wd, ignore_errors=True)
-        raise Inconclusive("model check of the specification failed for %s (a model-only counterexample is never a verdict; fix the model):\n%s" % (prop, out[-3000:]))
+        res["transitions"], res["states"] = int(m.group(1)), int(m.group(2))
     shutil.rmtree(wd, ignore_errors=True)
-    os.makedirs(os.path.dirname(key), exist_ok=True)
-    json.dump(res, open(key, "w"))
+    if rc != 0 or "Error:" in out or not m:
+        raise Inconclusive("model check of the closed-loop specification failed for %s (a model-only counterexample is never a verdict; "
+                           "the model or the property formulation must be corrected):\n%s" % (cfgname, out[-4000:]))
+    json.dump(res, open(key + ".tmp", "w"))
+    os.replace(key + ".tmp", key)
     return res
+
+
+def closed_model_check(prop, tier, items=None):
+    """TLC explores the closed-loop model exhaustively for every configuration of the property (same initial
+    state, alphabet and budgets as the real-code exploration) with all invariants and action properties."""
+    items = items or _cfgs(prop, tier)
+    names = sorted(set(i["cfg"] for i in items if not i.get("nomodel")))
+    out = []
+    with concurrent.futures.ThreadPoolExecutor(max_workers=4) as ex:
+        for r in ex.map(_mc_one, names):
+            out.append(r)
+    return {"module": "MC_Rollouts.tla", "cfg": "MC_closed.cfg", "runs": out,
+            "states": sum(r.get("states", 0) for r in out), "transitions": sum(r.get("transitions", 0) for r in out)}
 
 
 def replay(prop, path):
